@@ -64,7 +64,7 @@ def roles(facts):
         raise KeyError("GracefulShutdown::new wiring of the two close() pairs not recognised: %s" % pair)
     r.update(pair)
     dc = field_where(facts, GD, lambda t: "ConnectionDriver<" in t)
-    ds = field_where(facts, GD, lambda t: "Fuse<" in t)
+    ds = field_where(facts, GD, lambda t: "CloseFuture" in t or "Fuse<" in t)    # Fuse<CloseFuture>, Option<CloseFuture>, ...
     df = field_where(facts, GD, lambda t: t.endswith("CloseSender"))
     if len(dc) != 1 or len(ds) != 1 or len(df) != 1:
         raise KeyError("GracefulConnectionDriver fields by type: conn=%s shutdown=%s finished=%s" % (dc, ds, df))
